@@ -35,7 +35,11 @@ def main(argv=None):
     pol = ["any", "all"]
     hist = [D.random_plain_input(rng, rng.randint(3, 4), rng.randint(2, 4)) for _ in range(6 if q else 40)]
     hist_u = [SR.random_super_input(rng, rng.randint(3, 4), rng.randint(2, 3), rng.randint(2, 3), False) for _ in range(4 if q else 30)]
+    sim_p = SR.simulated_inputs(rng, 30 if q else 300, 5, 5, 0, False)
+    sim_u = SR.simulated_inputs(rng, 30 if q else 300, 5, 4, 3, False)
     sections = [
+        ("simulated inputs: thl, exh (dup, hgt symbolic)", [(d, SR.runs_for(["thl", "exh"], pol, FLAGS, "dhs")) for d in sim_p], False),
+        ("simulated inputs: base_uspfs, superdtl (dup, hgt, sloss symbolic)", [(d, SR.runs_for(["base_uspfs", "superdtl"], pol, FLAGS, "dhs", inf_too=False)) for d in sim_u], False),
         ("call history (fresh interpreter; earlier calls, or the same input object with its costs changed in place): thl, exh",
          [(d, SR.history_runs(["thl", "exh"], FLAGS, ("any", "all"))) for d in hist], False),
         ("call history: base_uspfs, superdtl", [(d, SR.history_runs(["base_uspfs", "superdtl"], FLAGS, ("all",))) for d in hist_u], False),
